@@ -108,6 +108,7 @@ structure DState where
   /-- searches whose remaining behaviour depends on the unspecified order of an unordered
       result (a member became unreadable): only checked loosely from then on -/
   tainted : List Nat := []
+  savedDescs : Option (List FieldDesc) := none
   deriving Inhabited
 
 def DState.env (d : DState) : Env := mkEnv d.c.live d.hooks
@@ -173,6 +174,12 @@ def readableOf (c : Coll) (s : Search) : List Obj :=
                                                   | (_, .ok o) => some o
                                                   | _ => none)
   | _ => []
+
+/-- `Len()` and `Err()` of a search: the length of a failed search is not specified -/
+def lenReply (s : Search) (impl : String) : Reply :=
+  match s.err with
+  | none => { txt := s!"{s.fields.length} ok" }
+  | some e => { txt := s!"- E:{e.print}", agree := some (impl.endsWith (" E:" ++ e.print)) }
 
 def parseObjs (ts : List String) : Option (List Obj) := ts.mapM parseObj
 
@@ -283,7 +290,7 @@ def DState.exec (d : DState) (op : String) (args : List String) (impl : String) 
     let o ← parseOp o
     let p ← parseLeaf p
     let (c, s) := Coll.search E d.c f o p none
-    pure (({ d with c := c }).setS sid s, { txt := s!"{s.fields.length} {printErrOpt s.err}" })
+    pure (({ d with c := c }).setS sid s, lenReply s impl)
   | "and", [sid, old, f, o, p] => do
     let sid ← sid.toNat?
     let old ← old.toNat?
@@ -292,7 +299,7 @@ def DState.exec (d : DState) (op : String) (args : List String) (impl : String) 
     let o ← parseOp o
     let p ← parseLeaf p
     let (c, s) := Coll.searchAnd E d.c s0 f o p
-    pure (({ d with c := c }).setS sid s, { txt := s!"{s.fields.length} {printErrOpt s.err}" })
+    pure (({ d with c := c }).setS sid s, lenReply s impl)
   | "or", [sid, old, f, o, p] => do
     let sid ← sid.toNat?
     let old ← old.toNat?
@@ -301,10 +308,10 @@ def DState.exec (d : DState) (op : String) (args : List String) (impl : String) 
     let o ← parseOp o
     let p ← parseLeaf p
     let (c, s) := Coll.searchOr E d.c s0 f o p
-    pure (({ d with c := c }).setS sid s, { txt := s!"{s.fields.length} {printErrOpt s.err}" })
+    pure (({ d with c := c }).setS sid s, lenReply s impl)
   | "len", [sid] => do
     let s ← (sid.toNat?).bind d.getS
-    pure (d, { txt := s!"{s.fields.length} {printErrOpt s.err}" })
+    pure (d, lenReply s impl)
   | "limit", [sid, n] => do
     let sid ← sid.toNat?
     let s ← d.getS sid
@@ -399,6 +406,40 @@ def DState.exec (d : DState) (op : String) (args : List String) (impl : String) 
   | "addfile", [o] => do
     let o ← parseObj o
     pure ({ d with c := { d.c with disk := d.c.disk.apply (.writeObj o) } }, { txt := "ok" })
+  | "dropentry", [u, full] => do
+    let u ← u.toNat?
+    let full ← parseBool full
+    let schema := d.c.disk.schema.map (fun img =>
+      match img.index.oidOf u with
+      | none => img
+      | some oid =>
+        let dropFrom (fi : FieldIdx) : FieldIdx := { fi with idx := fi.idx.filter (fun e => e.2 != oid) }
+        -- field indexes in name order (the harness edits the first one only when `full` is false)
+        let names := (img.index.fields.map (·.name)).toArray.qsort (· < ·) |>.toList
+        let firstName := names.head?
+        let fields := img.index.fields.map (fun fi => if full || some fi.name == firstName then dropFrom fi else fi)
+        let ids' := if full then img.index.ids.filter (fun p => p.1 != oid) else img.index.ids
+        let ix' : ObjIndex := { next := img.index.next, ids := ids', fields := fields }
+        ({ img with index := ix' } : SchemaImg))
+    pure ({ d with c := { d.c with disk := { d.c.disk with schema := schema } } }, { txt := "ok" })
+  | "reshape", [v] => do
+    let v ← v.toNat?
+    let edit (descs : List FieldDesc) : List FieldDesc :=
+      match v with
+      | 0 => descs.filter (fun x => x.path != "U16")
+      | 1 => descs ++ [{ path := "Extra", type := "int", cast := some .i64, cons := {} }]
+      | 2 => descs.map (fun x => if x.path == "B" then { x with type := "int" } else x)
+      | _ => descs
+    let setDescs (ds : List FieldDesc) : Coll :=
+      { d.c with disk := { d.c.disk with schema := d.c.disk.schema.map (fun img => { img with descs := ds }) } }
+    if v == 99 then
+      match d.savedDescs with
+      | some ds => pure ({ d with savedDescs := none, c := setDescs ds }, { txt := "ok" })
+      | none => pure (d, { txt := "ok" })
+    else
+      match d.c.disk.schema with
+      | some img => pure ({ d with savedDescs := d.savedDescs <|> some img.descs, c := setDescs (edit img.descs) }, { txt := "ok" })
+      | none => pure (d, { txt := "ok" })
   | "rmschema", [] => pure ({ d with c := { d.c with disk := d.c.disk.apply .rmSchema } }, { txt := "ok" })
   | "ls", [] =>
     let us := (d.c.disk.files.keys.toArray.qsort (· < ·)).toList
@@ -420,7 +461,8 @@ def DState.line (d : DState) (line : String) : DState × String :=
     | op :: args =>
       match d.exec op args impl with
       | some (d', r) =>
-        let ok := match r.agree with
+        -- a panic of the implementation is never accepted, whatever the model says
+        let ok := !(impl.endsWith "PANIC") && match r.agree with
           | some b => b
           | none => r.txt == impl
         (d', if ok then "=" else "! " ++ r.txt)
